@@ -193,9 +193,19 @@ pub fn run_case(base: &Base, c: &HandleCase) -> Option<(String, String)> {
                         HCall::SetLenPlus(d) => (data.len() as i128 + d as i128).max(0) as u64,
                         _ => unreachable!(),
                     };
-                    s.set_len(n).map_err(|e| bad(format!("set_len({}) failed: {}", n, e)))?;
-                    data.resize(n as usize, 0);
-                    pos = pos.min(n);
+                    if n > (1u64 << 48) {
+                        // no compound file can hold a stream of this size: the call must be refused (a byte
+                        // vector could not be resized either) and change nothing
+                        match s.set_len(n) {
+                            Ok(()) => return Err(bad(format!("set_len({}) returned Ok", n))),
+                            Err(e) if e.kind() == std::io::ErrorKind::InvalidInput => {}
+                            Err(e) => return Err(bad(format!("set_len({}) failed with {:?} ({}), expected InvalidInput", n, e.kind(), e))),
+                        }
+                    } else {
+                        s.set_len(n).map_err(|e| bad(format!("set_len({}) failed: {}", n, e)))?;
+                        data.resize(n as usize, 0);
+                        pos = pos.min(n);
+                    }
                 }
                 HCall::Flush => {
                     s.flush().map_err(|e| bad(format!("flush failed: {}", e)))?;
@@ -283,6 +293,7 @@ pub fn alphabet(max_buf: usize, init_len: usize, full: bool) -> Vec<HCall> {
         HCall::SetLen(0),
         HCall::SetLen(64),
         HCall::SetLen(4096),
+        HCall::SetLen(u64::MAX),
         HCall::SetLenPlus(-1),
         HCall::SetLenPlus(1),
         HCall::Flush,
@@ -349,6 +360,7 @@ pub fn resize_alphabet(_max_buf: usize, _init_len: usize) -> Vec<HCall> {
         HCall::SetLen(64),
         HCall::SetLen(100),
         HCall::SetLen(4096),
+        HCall::SetLen(u64::MAX),
         HCall::SetLenPlus(-1),
         HCall::SetLenPlus(1),
         HCall::SetLenPlus(600),
